@@ -140,6 +140,9 @@ class C10(core.Check):
             ("srv", False, [("conn", 1, [("acc", 3)], [("d", b"hi")], []), ("conn", 2, [("f", errno.EPIPE)], [("d", b"yo")], []), ("svc",),
                             ("tx", 1, b"abcdef"), ("tx", 2, b"zz"), ("svc",), ("svc",)]),
             ("srv", False, [("conn", 1, [], [("f", errno.EBADF)], []), ("conn", 2, [("acc", 9)], [("d", b"yo")], []), ("svc",), ("tx", 2, b"q"), ("svc",)]),
+            # re-use: connections open at close(), then reopen() and service() again (ServerDoer run twice)
+            ("srv", False, [("conn", 1, [], [("d", b"hi")], []), ("svc",), ("close",), ("reopen",), ("svc",), ("conn", 2, [("acc", 9)], [("d", b"yo")], []), ("svc",)]),
+            ("srv", True, [("conn", 1, [], [], [("ok",)]), ("conn", 2, [], [], []), ("svc",), ("close",), ("reopen",), ("svc",), ("svc",)], "doer"),
             # a peer that resets before it is accepted (found with real sockets): must not make service() raise
             ("srv", False, [("dconn", 1), ("conn", 2, [("acc", 9)], [("d", b"yo")], []), ("svc",), ("tx", 2, b"q"), ("svc",)]),
             ("srv", True, [("conn", 1, [], [], [("ok",)]), ("dconn", 2), ("dconn", 1), ("svc",), ("svc",)]),
@@ -169,7 +172,9 @@ class C10(core.Check):
             if r < 0.55:
                 tls = rng.random() < 0.5
                 v = rng.random()
-                if v < 0.8:
+                if rng.random() < 0.12:   # the same server object closed, re-opened and serviced again
+                    yield ("srv", tls, T.gen_server_ops(rng, tls, "life", tier) + [("reopen",), ("conn", 9, [("acc", 3)], [("d", b"again")], [("ok",)] if tls else []), ("svc",), ("svc",)])
+                elif v < 0.8:
                     yield ("srv", tls, T.gen_server_ops(rng, tls, "fault", tier))
                 else:
                     yield ("srv", tls, T.gen_server_ops(rng, tls, "fault", tier), "doer" if v < 0.9 else "ctx")
@@ -313,7 +318,19 @@ class C10(core.Check):
         tls, ops = case[1], case[2]
         kind = "remotertls" if tls else "remoter"
         (st0, steps), ref = obs
-        if any(o[0] in ("close", "reopen", "closeix", "closeall") for o in ops):
+        if any(o[0] in ("close", "reopen", "reopenf", "closeix", "closeall") for o in ops):
+            # re-use: a server that was closed and re-opened is serviceable again (explicit closeIx/closeAllIx leave closed
+            # remoters in the table on purpose and are not judged here)
+            listening, reopened, dirty = True, False, False
+            for op, (st, snap) in zip(ops, steps):
+                if op[0] in ("close", "reopenf"):   # closed, or a reopen whose bind/listen failed: the server is not open
+                    listening = False
+                elif op[0] == "reopen":
+                    listening, reopened = (st == "ok"), True
+                elif op[0] in ("closeix", "closeall"):
+                    dirty = True
+                elif op[0] == "svc" and listening and reopened and not dirty and st != "ok":
+                    return ["service-raised-after-reopen"]
             return []
         allowed = set(T.conn_fault_codes(kind)) | {c + T.HS_OFFSET for c in T.conn_fault_codes(kind) + HS_EXTRA}
         raised_codes = set()
@@ -353,6 +370,8 @@ class C10(core.Check):
         # C10-K1: EPIPE is the only hard fault in the case, and the only complaints are the EPIPE-specific ones
         if not clauses:
             return None
+        if case[0] == "srv" and clauses == ["service-raised-after-reopen"]:
+            return "C10-K4"
         if not all(c.endswith(":epipe-only") for c in clauses):
             # C10-K3 (fixed by 42ebe80; kept so that an old tree is still recognised): RemoterTls + wire log + peer reset
             if case[0] == "cliw" and case[1] == "remotertls" and case[2] and any(o[0] == "rst" for o in case[3]) \
